@@ -329,9 +329,11 @@ RUN_TESTS_FN = {
     'ensures': ["G.ran == old(G.ran) + result", BADSUM, "result >= 0", "len(failures) >= old(len(failures))", "len(errors) >= old(len(errors))",
                 STREAMS_SAME] + BETWEEN_TESTS,           # C13/C18: after the tests the std streams are what they were
     'raises': {
-        'EndRun': ["options.post_mortem", STREAMS_SAME],
+        # C05: whatever ends the loop early -- the debugger session of --post-mortem (EndRun out of addError), ^C -- the
+        # test that had started got its stopTest: the per-test layer hooks are balanced (not G.tsu) when the exception leaves
+        'EndRun': ["options.post_mortem", STREAMS_SAME, "G.hookexc or not G.tsu"],
         # KeyboardInterrupt & co.: propagate by design, but the std streams are restored (C13/C18)
-        'OtherBase': [STREAMS_SAME], 'KeyboardInterrupt': [STREAMS_SAME],
+        'OtherBase': [STREAMS_SAME, "G.hookexc or not G.tsu"], 'KeyboardInterrupt': [STREAMS_SAME, "G.hookexc or not G.tsu"],
         # an exception of a per-test layer hook aborts the run by design; nothing else escapes (C04)
         'Exception': ["G.hookexc", STREAMS_SAME],
     },
